@@ -52,7 +52,6 @@ func checkC03(c *Ctx) {
 	r.Rule("R1.frmpayload", "EncryptFRMPayload output = data XOR AES(K, A_i), i = 1..ceil(len/16), same length; applying it twice is the identity")
 	r.Rule("R3.fopts", "EncryptFOpts output = data XOR AES(K, A) with the AFCntDown/NFCntDown type byte; 16+ bytes are rejected")
 	r.Rule("R4.methods", "PHYPayload.EncryptFRMPayload/EncryptFOpts feed isUplink, FHDR.DevAddr, the 32-bit FHDR.FCnt and AFCntDown = !uplink ∧ FPort≠nil ∧ FPort>0")
-	r.Rule("R5.errors", "no error branch returns nil; every success return is preceded by the store of the transformed bytes")
 	pos := func(name string) string {
 		if fn := c.Prog.SSAFunc("", name); fn != nil {
 			return c.Prog.Rel(fn.Pos())
@@ -168,12 +167,9 @@ func checkC03(c *Ctx) {
 			c03Methods(c, mt, v, sh.n, sh.m)
 		}
 	}
-	c03ErrorsHook(c)
+	flowC03(c)
 }
 
-var c03ErrorsHook = func(c *Ctx) {
-	c.Run.Note("R5 (error discipline) and the Decrypt* wiring are provided by the flow engine")
-}
 
 func c03Methods(c *Ctx, mt int64, v avariant, n, m int) {
 	r := c.Run
